@@ -50,7 +50,7 @@ prop("C04", [RO.rule_OR2_responder, RO.rule_CR, RO.rule_EF2, RO.rule_EF3, SQ.rul
      "InMempoolSince(height - 6) (OR2r); refund flag constant and true exactly for check_confirmations' list (EF2); constants 100/6 (EF3); the refund persisted with the deletion is the balance after every addition (SL); the confirmation height taken from the index is the block's chain height in every reachable index state (TH). "
      "NOT decided: arithmetic over chain evolutions (off-by-one of the completion height, cadence, status after a reorg of depth d).",
      technique="MIR path facts + comparison-shape and constant-origin rules")
-prop("C05", [PL.rule_PL1, PL.rule_PL3, PL.rule_PL7, PN.rule_PN_plugin, SQ.rule_SQ5_client, PL.rule_PT],
+prop("C05", [PL.rule_PL1, PL.rule_PL3, PL.rule_PL7, PN.rule_PN_plugin, SQ.rule_SQ5_client, PL.rule_PT, PL.rule_PL9],
      STATIC + "Decided: every reply class of the per-tower loop ends in a durable record (PL1); pending->accepted/invalid adds before it deletes (PL3); mutators persist on the known-tower path, "
      "only mutators write, pending work is re-queued at start-up and on idle wake-up, loaders agree (PL7); no tower reply or repeated notification reaches an unwrap (PNp). "
      "NOT decided: SIGKILL durability, exactly-one-of accounting across towers over a history.",
@@ -89,7 +89,7 @@ prop("C12", [OUT.rule_OUT, LK.rule_LK2, IX.rule_IXt],
      STATIC + "Decided: both Carrier RPC wrappers wait for reachability first; a transport error flags the outage and re-issues the same call, never yields a verdict; the monitor sets the flag true + notify_all "
      "on every Ok poll and false on transient errors; every public handler enters the Watcher only after the 503 gate (OUT); the waker can reach its notify (LK2). NOT decided: that retries eventually succeed; timing.",
      technique="variant-fact dataflow on error arms + call-graph reachability of the only notifier")
-prop("C13", [PL.rule_PL6, PL.rule_PL2, PL.rule_PL7, PL.rule_PL8, PL.rule_PT],
+prop("C13", [PL.rule_PL6, PL.rule_PL2, PL.rule_PL7, PL.rule_PL8, PL.rule_PT, PL.rule_PL9],
      STATIC + "Decided: who may feed / wake / create / start a retrier (one per tower, start only if stopped with pending data, wake only idle ones, Stale only when retryable and no retrier) (PL6); every reply class in "
      "Retrier::run makes progress or leaves; run only under the bounded exponential back-off built from the configured values (PL2); reload on start and on idle wake-up (PL7); each outcome arm sets the documented status, "
      "predicate tables (PL8). NOT decided: delays, the back-off schedule, 'within the configured delays'.",
